@@ -397,15 +397,21 @@ func runWear(part string, c *CrashCase) (err error) {
 	return nil
 }
 
-func TestC08Wear(t *testing.T) {
+func TestC08Wear(t *testing.T) { wearCheck(t, "C08") }
+
+// TestC07Wear: the same histories seen as C07's subject - whatever the failing
+// runs leave behind in the evaluator is hidden state between runs.
+func TestC07Wear(t *testing.T) { wearCheck(t, "C07") }
+
+func wearCheck(t *testing.T, prop string) {
 	defer silenceAs("wear")()
-	col := evid.New("C08", "wear", "")
+	col := evid.New(prop, "wear", "")
 	defer clearJournal("wear")
-	faults := []string{"return 1 % 0;", "return 1 / 0;", "panic(\"x\");", "return nosuch(n);", "return \"a\" + 1;", "return 1 .. \"a\";", "foreach z in 5 { n = z; } return n;", "return -\"a\";", "return len(1, 2) % 0;"}
+	faults := []string{"return 1 % 0;", "return 1 / 0;", "panic(\"x\");", "return nosuch(n);", "return \"a\" + 1;", "return 1 .. \"a\";", "foreach z in 5 { n = z; } return n;", "return -\"a\";", "return len(1, 2) % 0;", "return dive(n + 1, bad);", "return 1 + dive(n, bad) + dive(n, bad);"}
 	rapidCheck(t, col, func(rt *rapid.T) {
 		fault := faults[gen.Uniform(rt, "fault", len(faults))]
 		w := &WearSpec{BadRuns: rapid.SampledFrom([]int{1, 3, 40, 150, 400}).Draw(rt, "badruns"), Depth: rapid.SampledFrom([]int{0, 1, 5, 30, 120}).Draw(rt, "depth"),
-			GoodDepth: rapid.SampledFrom([]int{0, 10, 300, 3000, 9000}).Draw(rt, "gooddepth"), UseRun: rapid.Bool().Draw(rt, "userun")}
+			GoodDepth: rapid.SampledFrom([]int{0, 10, 300, 3000, 9000, 9990, 9998}).Draw(rt, "gooddepth"), UseRun: rapid.Bool().Draw(rt, "userun")}
 		var script string
 		switch gen.Uniform(rt, "wshape", 3) {
 		case 0:
@@ -415,13 +421,13 @@ func TestC08Wear(t *testing.T) {
 		default:
 			script = "function a(n, bad) { if (n <= 0) { if (bad) { " + fault + " } return 0; } return 1 + b(n - 1, bad); }\nfunction b(n, bad) { if (n <= 0) { if (bad) { " + fault + " } return 0; } return 1 + a(n - 1, bad); }\nreturn a(Depth, Bad);"
 		}
-		c := &CrashCase{Prop: "C08", Kind: "wear", Script: script, Wear: w}
+		c := &CrashCase{Prop: prop, Kind: "wear", Script: script, Wear: w}
 		if err := runWear("wear", c); err != nil {
 			if strings.HasPrefix(err.Error(), "harness:") {
 				t.Fatalf("%v (%s)", err, script)
 			}
 			c.Msg = err.Error()
-			violation(rt, "C08", c, "%v", err)
+			violation(rt, prop, c, "%v", err)
 		}
 		col.Class(fmt.Sprintf("failing-runs:%d", w.BadRuns))
 		col.Class("fault:" + fault)
@@ -431,6 +437,13 @@ func TestC08Wear(t *testing.T) {
 }
 
 func init() {
+	replayers["C07/wear"] = func(raw []byte) error {
+		var c CrashCase
+		if err := json.Unmarshal(raw, &c); err != nil {
+			return err
+		}
+		return runWear("replay", &c)
+	}
 	replayers["C08"] = func(raw []byte) error {
 		var c CrashCase
 		if err := json.Unmarshal(raw, &c); err != nil {
